@@ -83,7 +83,7 @@ ObsAllowedP(x, o) ==
   /\ 0 \in Observed(x, o) => MayHold(x.p.slew)
   /\ o.stray = 0
 BgNeedsSlewP(x, o) ==
-  \A t \in Observed(x, o) : t # 0 => MayHold(x.p.slew)
+  \A t \in Observed(x, o) : t # 0 => MayHold(x.p.slew) /\ o.bs \in {1, 2}
 MissReasonTrueP(x, o) ==
   \A k \in DOMAIN o.miss :
      LET m == o.miss[k]
@@ -152,7 +152,8 @@ Slew == /\ pc = "posed"
         /\ \/ /\ MayHold(x.p.slew)
               /\ bs' = 1 /\ pc' = "slewed" /\ UNCHANGED misses
            \/ /\ MayFail(x.p.slew)
-              /\ bs' = 0 /\ pc' = "background"
+              \* undecided slew: the old boresight may coincide with the commanded pointing (bs = 2)
+              /\ bs' \in (IF x.p.slew = 2 THEN {0, 2} ELSE {0}) /\ pc' = "background"
               /\ misses' = Append(misses, [t |-> 0, r |-> "slew"])
         /\ UNCHANGED <<x, obs, j>>
 
@@ -168,7 +169,7 @@ Attempt == /\ pc = "slewed"
 \* serendipitous attempt on background target j: an observation or nothing, never a miss;
 \* an observation needs the commanded pointing to have been reached
 Background == /\ pc = "background" /\ x.calcBg /\ j <= NT(x)
-              /\ \/ /\ bs = 1 /\ GateOK(x, j)
+              /\ \/ /\ bs \in {1, 2} /\ GateOK(x, j)
                     /\ obs' = obs \cup {j}
                  \/ UNCHANGED obs
               /\ j' = j + 1 /\ UNCHANGED <<x, pc, bs, misses>>
